@@ -25,7 +25,7 @@ def colours(key, v):
     from orix.vector import Vector3d
     with warnings.catch_warnings():
         warnings.simplefilter("ignore")
-        return key.direction2color(Vector3d(np.asarray(v, float)))
+        return key.direction2color(Vector3d(common.relayout(np.asarray(v, float), [float(x) for x in np.asarray(v, float).reshape(-1)[:3]])))
 
 
 def off_boundary(k, v):
